@@ -31,61 +31,6 @@ theorem repStep_jzStmt (d : Nat) (r : Option Int) (p : Int) (c : Node) (a : Int)
 theorem repStep_jumpStmt (d : Nat) (r : Option Int) (p a : Int) : repStep d r (jumpStmt p a) = .ok (jumpStmt p a) :=
   repStep_other d r p _ (by simp [Node.cls]) (by simp [Node.cls])
 
-mutual
-theorem mapRep1_emit (k : Nat) (IH : ∀ ps, P.weights ps < k → MainAt ps) (ld : Bool) (d : Nat) (r : Option Int) :
-    (x : P) → (o : Int) → x.weight ≤ k → x.wf = true → x.depth ≤ d → (emit1 ld o x).mapM (repStep d r) = .ok (emit1 true o x)
-  | .simple s, o, _, h, _ => by
-    obtain ⟨_, h2⟩ := wf_simple.1 h
-    rw [emit1_simple, emit1_simple]
-    exact mapM_cons_ok (repStep_other d r _ _ (simpleCode_spec h2).2.2.2.1 (simpleCode_spec h2).2.2.2.2) mapM_nil_ok
-  | .skip n, o, _, _, _ => by rw [emit1_skip, emit1_skip]; rfl
-  | .ifThen csz cond t e, o, hw, h, hd => by
-    obtain ⟨ht, he, _⟩ := wf_if.1 h
-    simp only [P.weight] at hw
-    simp only [P.depth] at hd
-    have h1 := mapReps_emit k IH ld d r t (o + csz + 3) (by omega) ht (by omega)
-    have h2 := mapReps_emit k IH ld d r e (o + csz + 3 + P.sizes t + 3) (by omega) he (by omega)
-    by_cases hemp : e = []
-    · subst hemp
-      rw [emit1_if_noelse, emit1_if_noelse]
-      exact mapM_cons_ok (repStep_jzStmt ..) h1
-    · rw [emit1_if_else _ _ _ _ _ _ hemp, emit1_if_else _ _ _ _ _ _ hemp]
-      exact mapM_cons_ok (repStep_jzStmt ..) (mapM_append_ok h1 (mapM_cons_ok (repStep_jumpStmt ..) h2))
-  | .loop csz cond body, o, hw, h, hd => by
-    simp only [P.weight] at hw
-    simp only [P.depth] at hd
-    obtain ⟨d', rfl⟩ : ∃ d', d = d' + 1 := ⟨d - 1, by omega⟩
-    have hb := wf_loop.1 h
-    cases ld with
-    | true =>
-      rw [emit1_loop_done]
-      refine mapM_cons_ok ?_ mapM_nil_ok
-      apply repStep_repeat
-      apply clean_id
-      exact CleanL.cons_plain (c := .ifThen (o + csz) (.unary (S "not") (o + csz) cond) [exitRepeatStmt (o + csz)] [])
-        (by simp [Node.cls]) (by simp [Node.cls]) (by simp [Node.cls]) (tgtC_clean _ body hb d' (by omega))
-    | false =>
-      rw [emit1_loop_raw, emit1_loop_done]
-      refine mapM_cons_ok ?_ mapM_nil_ok
-      apply repStep_repeat
-      have := IH body (by omega) false d' (o + csz + 3) (some (o + csz + 3 + P.sizes body))
-        [jzStmt (o + csz) cond (o + csz + 3 + P.sizes body + 2)] [exitIf (o + csz) cond] [] hb (by omega)
-        (HdrOK.hdr (o + csz) cond (o + csz + 3 + P.sizes body) _ rfl (by omega) (by omega)) (Or.inl rfl)
-        (fun e he => by cases he; omega)
-      simpa using this
-theorem mapReps_emit (k : Nat) (IH : ∀ ps, P.weights ps < k → MainAt ps) (ld : Bool) (d : Nat) (r : Option Int) :
-    (ps : List P) → (o : Int) → P.weights ps ≤ k → P.wfs ps = true → P.depths ps ≤ d →
-      (emit ld o ps).mapM (repStep d r) = .ok (emit true o ps)
-  | [], o, _, _, _ => by rw [emit_nil, emit_nil]; rfl
-  | x :: ps, o, hw, h, hd => by
-    obtain ⟨hx, hps⟩ := wfs_cons.1 h
-    rw [weights_cons] at hw
-    rw [depths_cons] at hd
-    rw [emit_cons, emit_cons]
-    exact mapM_append_ok (mapRep1_emit k IH ld d r x o (by omega) hx (by omega))
-      (mapReps_emit k IH ld d r ps (o + x.size) (by omega) hps (by omega))
-end
-
 /-! ### the second loop: one `if` -/
 
 /-- statements after the construct being processed: raw, at or beyond `x` -/
@@ -336,6 +281,7 @@ theorem tgtC1_length_le (o : Int) (x : P) : (tgtC1 o x).length ≤ (emit1 true o
   | simple s => simp [tgtC1, emit1]
   | skip n => simp [tgtC1, emit1]
   | loop csz cond b => simp [tgtC1, emit1]
+  | loopX csz cond b1 csz2 cond2 t b2 => simp [tgtC1, emit1]
   | ifThen csz cond t e => simp only [tgtC1, emit1]; split <;> simp
 
 theorem emit1_eq_tgtC1 (o : Int) (x : P) (h : ∀ csz cond t e, x ≠ .ifThen csz cond t e) : emit1 true o x = tgtC1 o x := by
@@ -343,6 +289,7 @@ theorem emit1_eq_tgtC1 (o : Int) (x : P) (h : ∀ csz cond t e, x ≠ .ifThen cs
   | simple s => simp [tgtC1, emit1]
   | skip n => simp [tgtC1, emit1]
   | loop csz cond b => simp [tgtC1, emit1]
+  | loopX csz cond b1 csz2 cond2 t b2 => simp [tgtC1, emit1]
   | ifThen csz cond t e => exact absurd rfl (h csz cond t e)
 
 theorem jzsOf_cons_other (o : Int) (x : P) (ps : List P) (h : ∀ csz cond t e, x ≠ .ifThen csz cond t e) :
@@ -351,37 +298,36 @@ theorem jzsOf_cons_other (o : Int) (x : P) (ps : List P) (h : ∀ csz cond t e, 
   | simple s => simp [jzsOf]
   | skip n => simp [jzsOf]
   | loop csz cond b => simp [jzsOf]
+  | loopX csz cond b1 csz2 cond2 t b2 => simp [jzsOf]
   | ifThen csz cond t e => exact absurd rfl (h csz cond t e)
 
-theorem condJzs_emit (k : Nat) (IH : ∀ ps, P.weights ps < k → MainAt ps) (d n : Nat) (r : Option Int) :
+/-- the second loop over the ifs of a list level, in continuation form: `J'` = the jz operations that remain afterwards,
+    `T` = the (raw) statements behind the list -/
+theorem condJzs_emitK (k : Nat) (IH : ∀ ps, P.weights ps < k → MainAt ps) (d n : Nat) (r : Option Int) (J' : List Node) :
     ∀ (ps : List P) (o : Int) (done T : List Node), P.weights ps ≤ k → P.wfs ps = true → P.depths ps ≤ d → DoneOK o done →
-      TailOK (o + P.sizes ps) T → RB r (o + P.sizes ps) → (done ++ (emit true o ps ++ T)).length ≤ n →
-      condJzs d n (jzsOf o ps) (done ++ (emit true o ps ++ T)) r = .ok (done ++ (tgtC o ps ++ T)) := by
+      RestOK (o + P.sizes ps) T → RB r (o + P.sizes ps) → (done ++ (emit true o ps ++ T)).length ≤ n →
+      condJzs d n (jzsOf o ps ++ J') (done ++ (emit true o ps ++ T)) r = condJzs d n J' (done ++ (tgtC o ps ++ T)) r := by
   intro ps
   induction ps with
   | nil =>
     intro o done T _ _ _ _ _ _ _
-    simp only [jzsOf, emit_nil, tgtC_nil]
-    rw [condJzs_nil]
+    simp only [jzsOf, emit_nil, tgtC_nil, List.nil_append]
   | cons x ps ih =>
     intro o done T hw hwf hd hdone hT hrb hlen
     obtain ⟨hx, hps⟩ := wfs_cons.1 hwf
     rw [weights_cons] at hw
     rw [depths_cons] at hd
     rw [sizes_cons] at hT hrb
-    have hT' : TailOK (o + x.size + P.sizes ps) T := by
-      rcases hT with h | ⟨q, b, h1, h2⟩
-      · exact Or.inl h
-      · exact Or.inr ⟨q, b, h1, by push_cast at h2; omega⟩
+    have hT' : RestOK (o + x.size + P.sizes ps) T := hT.mono (by push_cast; omega)
     have hrb' : RB r (o + x.size + P.sizes ps) := hrb.mono (by push_cast; omega)
     have hR : RestOK (o + x.size) (emit true (o + x.size) ps ++ T) :=
-      AllS.append (restOK_emit _ ps hps) ((restOK_tail hT').mono (by omega))
+      AllS.append (restOK_emit _ ps hps) (hT'.mono (by omega))
     have hdone' : DoneOK (o + x.size) (done ++ tgtC1 o x) := AllS.append (hdone.mono (by omega)) (doneOK_tgtC1 o x hx)
     rw [emit_cons, tgtC_cons, List.append_assoc] at *
     -- after the construct at the head has been dealt with, the list induction applies
-    have hcont : ∀ restJz, restJz = jzsOf (o + x.size) ps →
+    have hcont : ∀ restJz, restJz = jzsOf (o + x.size) ps ++ J' →
         condJzs d n restJz (done ++ (tgtC1 o x ++ (emit true (o + x.size) ps ++ T))) r =
-          .ok (done ++ (tgtC1 o x ++ tgtC (o + x.size) ps ++ T)) := by
+          condJzs d n J' (done ++ (tgtC1 o x ++ tgtC (o + x.size) ps ++ T)) r := by
       intro restJz hj
       have hlen' : ((done ++ tgtC1 o x) ++ (emit true (o + x.size) ps ++ T)).length ≤ n := by
         have := tgtC1_length_le o x
@@ -391,7 +337,7 @@ theorem condJzs_emit (k : Nat) (IH : ∀ ps, P.weights ps < k → MainAt ps) (d 
       simpa [List.append_assoc] using this
     by_cases hif : ∃ csz cond t e, x = .ifThen csz cond t e
     · obtain ⟨csz, cond, t, e, rfl⟩ := hif
-      rw [jzsOf_cons_if]
+      rw [jzsOf_cons_if, List.cons_append]
       by_cases hemp : e = []
       · subst hemp
         simp only [List.isEmpty_nil, if_true, Int.add_zero]
@@ -406,6 +352,273 @@ theorem condJzs_emit (k : Nat) (IH : ∀ ps, P.weights ps < k → MainAt ps) (d 
     · have hno : ∀ csz cond t e, x ≠ .ifThen csz cond t e := fun csz cond t e h => hif ⟨csz, cond, t, e, h⟩
       rw [jzsOf_cons_other o x ps hno, emit1_eq_tgtC1 o x hno]
       exact hcont _ rfl
+
+theorem condJzs_emit (k : Nat) (IH : ∀ ps, P.weights ps < k → MainAt ps) (d n : Nat) (r : Option Int)
+    (ps : List P) (o : Int) (done T : List Node) (hw : P.weights ps ≤ k) (hwf : P.wfs ps = true) (hd : P.depths ps ≤ d)
+    (hdone : DoneOK o done) (hT : TailOK (o + P.sizes ps) T) (hrb : RB r (o + P.sizes ps))
+    (hlen : (done ++ (emit true o ps ++ T)).length ≤ n) :
+    condJzs d n (jzsOf o ps) (done ++ (emit true o ps ++ T)) r = .ok (done ++ (tgtC o ps ++ T)) := by
+  have := condJzs_emitK k IH d n r [] ps o done T hw hwf hd hdone (restOK_tail hT) hrb hlen
+  rw [List.append_nil] at this
+  rw [this, condJzs_nil]
+
+/-! ### a loop body with one `if … exit repeat end if` (layer F4, restricted class) -/
+
+theorem emit_noIfs (o : Int) : ∀ (ps : List P), P.noIfs ps = true → emit true o ps = tgtC o ps ∧ jzsOf o ps = [] := by
+  intro ps
+  induction ps generalizing o with
+  | nil => intro _; simp [emit, tgtC, jzsOf]
+  | cons x ps ih =>
+    intro h
+    have hno : ∀ csz cond t e, x ≠ .ifThen csz cond t e := by
+      intro csz cond t e hx; subst hx; simp [P.noIfs] at h
+    have hps : P.noIfs ps = true := by cases x <;> simp_all [P.noIfs]
+    obtain ⟨h1, h2⟩ := ih (o + x.size) hps
+    exact ⟨by rw [emit_cons, tgtC_cons, emit1_eq_tgtC1 o x hno, h1], by rw [jzsOf_cons_other o x ps hno, h2]⟩
+
+/-- `break_detect` only looks at the second-to-last statement -/
+theorem breakDetect_snoc (l0 : List Node) (x : Node) (r : Option Int) (hl : AllS (fun _ _ => True) l0)
+    (hj : ∀ e, r = some e → ∀ p jp ja, Node.stmt p (.jump jp ja) ∈ l0 → ja ≤ e) : breakDetect (l0 ++ [x]) r = .ok (l0 ++ [x]) := by
+  unfold breakDetect
+  split
+  · rfl
+  · rename_i e
+    split
+    · rfl
+    · split
+      · rename_i elseJump lastSt revInit hrev
+        have hmem : lastSt ∈ l0 := by
+          rw [List.reverse_append] at hrev
+          simp only [List.reverse_cons, List.reverse_nil, List.nil_append, List.cons_append, List.cons.injEq] at hrev
+          have : lastSt ∈ l0.reverse := by rw [hrev.2]; simp
+          simpa using this
+        obtain ⟨p, c, rfl, _⟩ := hl lastSt hmem
+        split
+        · rename_i x1 jp ja hx
+          cases hx
+          have := hj e rfl p jp ja hmem
+          have n : ¬ e < ja := by omega
+          simp [n]
+        · rfl
+        · rename_i hx1 hx2
+          exact absurd rfl (hx2 p c)
+      · rfl
+
+theorem foldlM_scan_append {s s1 : ScanSt} {r : Option Int} {l1 l2 : List Node} (h : l1.foldlM (scanStep r) s = .ok s1) :
+    (l1 ++ l2).foldlM (scanStep r) s = l2.foldlM (scanStep r) s1 := foldlM_append_ok h
+
+/-- the body of a loop with one if-exit: `condition_detect` turns the exit jump into the `exit repeat` statement that ends the
+    then-branch; the statements behind the `if` (none of them an `if`) stay as they are -/
+theorem bodyX (k : Nat) (IH : ∀ ps, P.weights ps < k → MainAt ps) (d' : Nat) (b1 t b2 : List P) (csz2 : Nat) (cond cond2 : Node)
+    (pj o1 idx a0 X : Int) (hw1 : P.weights b1 < k) (hwt : P.weights t < k) (hwf1 : P.wfs b1 = true) (hwft : P.wfs t = true)
+    (hwf2 : P.wfs b2 = true) (hno : P.noIfs b2 = true) (hd1 : P.depths b1 ≤ d') (hdt : P.depths t ≤ d')
+    (hpj : pj < o1) (hidx : o1 + P.sizes b1 + csz2 + 3 + P.sizes t + 3 + P.sizes b2 ≤ idx) (ha0 : idx < a0) (hX : idx < X)
+    (hm1 : (emit false o1 b1).mapM (repStep d' (some idx)) = .ok (emit true o1 b1))
+    (hm2 : (emit false (o1 + P.sizes b1 + csz2 + 3) t).mapM (repStep d' (some idx)) = .ok (emit true (o1 + P.sizes b1 + csz2 + 3) t))
+    (hm3 : (emit false (o1 + P.sizes b1 + csz2 + 3 + P.sizes t + 3) b2).mapM (repStep d' (some idx)) = .ok (emit true (o1 + P.sizes b1 + csz2 + 3 + P.sizes t + 3) b2)) :
+    condDetectD d' (jzStmt pj cond a0 :: (emit false o1 b1 ++ jzStmt (o1 + P.sizes b1 + csz2) cond2 (o1 + P.sizes b1 + csz2 + 3 + P.sizes t + 3) :: (emit false (o1 + P.sizes b1 + csz2 + 3) t ++ jumpStmt (o1 + P.sizes b1 + csz2 + 3 + P.sizes t) X :: emit false (o1 + P.sizes b1 + csz2 + 3 + P.sizes t + 3) b2))) (some idx) =
+      .ok (exitIf pj cond :: (tgtC o1 b1 ++ Node.stmt (o1 + P.sizes b1 + csz2) (.ifThen (o1 + P.sizes b1 + csz2) cond2 (tgtC (o1 + P.sizes b1 + csz2 + 3) t ++ [exitRepeatStmt (o1 + P.sizes b1 + csz2 + 3 + P.sizes t)]) []) :: tgtC (o1 + P.sizes b1 + csz2 + 3 + P.sizes t + 3) b2)) := by
+  have it := emit_inv true (o1 + P.sizes b1 + csz2 + 3) t hwft
+  have i2 := emit_inv true (o1 + P.sizes b1 + csz2 + 3 + P.sizes t + 3) b2 hwf2
+  obtain ⟨hb2eq, _⟩ := emit_noIfs (o1 + P.sizes b1 + csz2 + 3 + P.sizes t + 3) b2 hno
+  -- part 1 of the first loop
+  have hM : mapRep d' (jzStmt pj cond a0 :: (emit false o1 b1 ++ jzStmt (o1 + P.sizes b1 + csz2) cond2 (o1 + P.sizes b1 + csz2 + 3 + P.sizes t + 3) :: (emit false (o1 + P.sizes b1 + csz2 + 3) t ++ jumpStmt (o1 + P.sizes b1 + csz2 + 3 + P.sizes t) X :: emit false (o1 + P.sizes b1 + csz2 + 3 + P.sizes t + 3) b2))) (some idx) = .ok (jzStmt pj cond a0 :: (emit true o1 b1 ++ jzStmt (o1 + P.sizes b1 + csz2) cond2 (o1 + P.sizes b1 + csz2 + 3 + P.sizes t + 3) :: (emit true (o1 + P.sizes b1 + csz2 + 3) t ++ jumpStmt (o1 + P.sizes b1 + csz2 + 3 + P.sizes t) X :: emit true (o1 + P.sizes b1 + csz2 + 3 + P.sizes t + 3) b2))) := by
+    rw [mapRep_eq]
+    exact mapM_cons_ok (repStep_jzStmt ..) (mapM_append_ok hm1 (mapM_cons_ok (repStep_jzStmt ..)
+      (mapM_append_ok hm2 (mapM_cons_ok (repStep_jumpStmt ..) hm3))))
+  -- part 2: the scan
+  have st0 := scanStep_jz (some idx) {} pj pj cond a0 (fun a' ha' => by cases ha') (by simp [resetSt, PrevOK])
+  have hsel : selAddr (some idx) a0 = none := by simp [selAddr, ha0]
+  rw [hsel] at st0
+  have hN0 : Neutral (ScanSt.mk none (resetSt {}).prev false (({} : ScanSt).jzs ++ [.jz pj cond a0])) o1 :=
+    ⟨(fun a' ha' => by cases ha'), (by simp [resetSt, PrevOK])⟩
+  obtain ⟨s1, hs1, hN1, hJ1⟩ := scan_emit (some idx) b1 o1 _ hwf1 (fun e he => by cases he; omega) hN0
+  have st2 := scanStep_jz (some idx) s1 (o1 + P.sizes b1 + csz2) (o1 + P.sizes b1 + csz2) cond2 (o1 + P.sizes b1 + csz2 + 3 + P.sizes t + 3)
+    (fun a' ha' => by have := hN1.1 a' ha'; omega) hN1.2
+  rw [addrSel (some idx) _ (fun e he => by cases he; omega)] at st2
+  have hskip : AllS (fun p _ => p < (o1 + P.sizes b1 + csz2 + 3 + P.sizes t + 3)) (emit true (o1 + P.sizes b1 + csz2 + 3) t ++ [jumpStmt (o1 + P.sizes b1 + csz2 + 3 + P.sizes t) X]) :=
+    AllS.append (it.mono fun _ _ hh => by have := hh.2.1; omega) (allS_jump _ _ (by omega))
+  have sk := scan_skip (some idx) (o1 + P.sizes b1 + csz2 + 3 + P.sizes t + 3) _ hskip _
+    (rfl : (ScanSt.mk (some (o1 + P.sizes b1 + csz2 + 3 + P.sizes t + 3)) (resetSt s1).prev false (s1.jzs ++ [.jz (o1 + P.sizes b1 + csz2) cond2 (o1 + P.sizes b1 + csz2 + 3 + P.sizes t + 3)])).address = _)
+  rw [lastOr_append_singleton] at sk
+  obtain ⟨s3, hs3, hJ3⟩ : ∃ s3, (emit true (o1 + P.sizes b1 + csz2 + 3 + P.sizes t + 3) b2).foldlM (scanStep (some idx))
+      (ScanSt.mk (some (o1 + P.sizes b1 + csz2 + 3 + P.sizes t + 3)) (some (jumpStmt (o1 + P.sizes b1 + csz2 + 3 + P.sizes t) X)) false (s1.jzs ++ [.jz (o1 + P.sizes b1 + csz2) cond2 (o1 + P.sizes b1 + csz2 + 3 + P.sizes t + 3)])) = .ok s3 ∧
+      s3.jzs = s1.jzs ++ [.jz (o1 + P.sizes b1 + csz2) cond2 (o1 + P.sizes b1 + csz2 + 3 + P.sizes t + 3)] := by
+    cases hxs : emit true (o1 + P.sizes b1 + csz2 + 3 + P.sizes t + 3) b2 with
+    | nil => exact ⟨_, rfl, rfl⟩
+    | cons y ys =>
+      rw [hxs] at i2
+      obtain ⟨py, cy, rfl, hpy⟩ := i2.head
+      have sa := scanStep_afterJump (some idx) (ScanSt.mk (some (o1 + P.sizes b1 + csz2 + 3 + P.sizes t + 3)) (some (jumpStmt (o1 + P.sizes b1 + csz2 + 3 + P.sizes t) X)) false
+          (s1.jzs ++ [.jz (o1 + P.sizes b1 + csz2) cond2 (o1 + P.sizes b1 + csz2 + 3 + P.sizes t + 3)])) py cy _ _ _
+        (fun a' ha' => by simp only [Option.some.injEq] at ha'; have := hpy.1; omega) rfl rfl
+      have sk2 := scan_skip (some idx) X ys (i2.tail.mono fun _ _ hh => by have := hh.2.1; omega) _
+        (rfl : (ScanSt.mk (some X) (some (jumpStmt (o1 + P.sizes b1 + csz2 + 3 + P.sizes t) X)) true (s1.jzs ++ [.jz (o1 + P.sizes b1 + csz2) cond2 (o1 + P.sizes b1 + csz2 + 3 + P.sizes t + 3)])).address = _)
+      exact ⟨_, by rw [foldlM_cons_ok sa, sk2], rfl⟩
+  have hS : (jzStmt pj cond a0 :: (emit true o1 b1 ++ jzStmt (o1 + P.sizes b1 + csz2) cond2 (o1 + P.sizes b1 + csz2 + 3 + P.sizes t + 3) :: (emit true (o1 + P.sizes b1 + csz2 + 3) t ++ jumpStmt (o1 + P.sizes b1 + csz2 + 3 + P.sizes t) X :: emit true (o1 + P.sizes b1 + csz2 + 3 + P.sizes t + 3) b2))).foldlM (scanStep (some idx)) {} = .ok s3 := by
+    rw [jzStmt, foldlM_cons_ok st0, foldlM_append_ok hs1, jzStmt, foldlM_cons_ok st2, foldlM_append_cons_ok sk]
+    exact hs3
+  have hjzs : s3.jzs = .jz pj cond a0 :: (jzsOf o1 b1 ++ [.jz (o1 + P.sizes b1 + csz2) cond2 (o1 + P.sizes b1 + csz2 + 3 + P.sizes t + 3)]) := by
+    rw [hJ3, hJ1]; simp
+  rw [condDetectD_eq, hM]
+  show ((jzStmt pj cond a0 :: (emit true o1 b1 ++ jzStmt (o1 + P.sizes b1 + csz2) cond2 (o1 + P.sizes b1 + csz2 + 3 + P.sizes t + 3) :: (emit true (o1 + P.sizes b1 + csz2 + 3) t ++ jumpStmt (o1 + P.sizes b1 + csz2 + 3 + P.sizes t) X :: emit true (o1 + P.sizes b1 + csz2 + 3 + P.sizes t + 3) b2))).foldlM (scanStep (some idx)) {}).bind _ = _
+  rw [hS]
+  show condJzs d' (jzStmt pj cond a0 :: (emit false o1 b1 ++ jzStmt (o1 + P.sizes b1 + csz2) cond2 (o1 + P.sizes b1 + csz2 + 3 + P.sizes t + 3) :: (emit false (o1 + P.sizes b1 + csz2 + 3) t ++ jumpStmt (o1 + P.sizes b1 + csz2 + 3 + P.sizes t) X :: emit false (o1 + P.sizes b1 + csz2 + 3 + P.sizes t + 3) b2))).length s3.jzs (jzStmt pj cond a0 :: (emit true o1 b1 ++ jzStmt (o1 + P.sizes b1 + csz2) cond2 (o1 + P.sizes b1 + csz2 + 3 + P.sizes t + 3) :: (emit true (o1 + P.sizes b1 + csz2 + 3) t ++ jumpStmt (o1 + P.sizes b1 + csz2 + 3 + P.sizes t) X :: emit true (o1 + P.sizes b1 + csz2 + 3 + P.sizes t + 3) b2))) (some idx) = _
+  rw [hjzs]
+  have hlenEq : (jzStmt pj cond a0 :: (emit false o1 b1 ++ jzStmt (o1 + P.sizes b1 + csz2) cond2 (o1 + P.sizes b1 + csz2 + 3 + P.sizes t + 3) :: (emit false (o1 + P.sizes b1 + csz2 + 3) t ++ jumpStmt (o1 + P.sizes b1 + csz2 + 3 + P.sizes t) X :: emit false (o1 + P.sizes b1 + csz2 + 3 + P.sizes t + 3) b2))).length = (jzStmt pj cond a0 :: (emit true o1 b1 ++ jzStmt (o1 + P.sizes b1 + csz2) cond2 (o1 + P.sizes b1 + csz2 + 3 + P.sizes t + 3) :: (emit true (o1 + P.sizes b1 + csz2 + 3) t ++ jumpStmt (o1 + P.sizes b1 + csz2 + 3 + P.sizes t) X :: emit true (o1 + P.sizes b1 + csz2 + 3 + P.sizes t + 3) b2))).length := by
+    simp only [List.length_cons, List.length_append, emit_length]
+  rw [hlenEq]
+  -- the loop's own header jump
+  rw [jzStmt, condJzs_exit d' _ pj cond a0 idx _ _ _ ha0 (replaceFirstCode_head _ _ pj _ _ (by rw [pyEq_jz]; simp))]
+  -- the ifs in front of the if-exit
+  have hdone0 : DoneOK o1 [exitIf pj cond] := by
+    refine AllS.cons ⟨hpj, by simp [Node.cls], ?_⟩ AllS.nil
+    intro q' cd a' b' e'
+    simp only [Node.ifThen.injEq] at e'
+    exact e'.1.symm
+  have hT1 : RestOK (o1 + P.sizes b1) (jzStmt (o1 + P.sizes b1 + csz2) cond2 (o1 + P.sizes b1 + csz2 + 3 + P.sizes t + 3) :: (emit true (o1 + P.sizes b1 + csz2 + 3) t ++
+      jumpStmt (o1 + P.sizes b1 + csz2 + 3 + P.sizes t) X :: emit true (o1 + P.sizes b1 + csz2 + 3 + P.sizes t + 3) b2)) := by
+    refine AllS.cons ⟨by omega, by simp [Node.cls], by intro jp cd a' e'; cases e'; rfl⟩ ?_
+    refine AllS.append ((restOK_emit _ t hwft).mono (by omega)) (AllS.cons ⟨by omega, by simp [Node.cls], by intro jp cd a' e'; cases e'⟩
+      ((restOK_emit _ b2 hwf2).mono (by omega)))
+  have hk1 := condJzs_emitK k IH d' (Node.stmt pj (Node.jz pj cond a0) :: (emit true o1 b1 ++ jzStmt (o1 + P.sizes b1 + csz2) cond2 (o1 + P.sizes b1 + csz2 + 3 + P.sizes t + 3) ::
+      (emit true (o1 + P.sizes b1 + csz2 + 3) t ++ jumpStmt (o1 + P.sizes b1 + csz2 + 3 + P.sizes t) X :: emit true (o1 + P.sizes b1 + csz2 + 3 + P.sizes t + 3) b2))).length (some idx)
+    [.jz (o1 + P.sizes b1 + csz2) cond2 (o1 + P.sizes b1 + csz2 + 3 + P.sizes t + 3)] b1 o1 [exitIf pj cond] _ (by omega) hwf1 hd1 hdone0 hT1 (fun e he => by cases he; omega)
+    (by simp)
+  have hshape : Node.stmt pj (Node.ifThen pj (Node.unary (S "not") pj cond) [exitRepeatStmt pj] []) ::
+      (emit true o1 b1 ++ jzStmt (o1 + P.sizes b1 + csz2) cond2 (o1 + P.sizes b1 + csz2 + 3 + P.sizes t + 3) :: (emit true (o1 + P.sizes b1 + csz2 + 3) t ++ jumpStmt (o1 + P.sizes b1 + csz2 + 3 + P.sizes t) X :: emit true (o1 + P.sizes b1 + csz2 + 3 + P.sizes t + 3) b2)) =
+      [exitIf pj cond] ++ (emit true o1 b1 ++ (jzStmt (o1 + P.sizes b1 + csz2) cond2 (o1 + P.sizes b1 + csz2 + 3 + P.sizes t + 3) :: (emit true (o1 + P.sizes b1 + csz2 + 3) t ++
+        jumpStmt (o1 + P.sizes b1 + csz2 + 3 + P.sizes t) X :: emit true (o1 + P.sizes b1 + csz2 + 3 + P.sizes t + 3) b2))) := rfl
+  rw [hshape, hk1]
+  -- the if-exit itself
+  have hdone1 : DoneOK (o1 + P.sizes b1) ([exitIf pj cond] ++ tgtC o1 b1) :=
+    AllS.append (hdone0.mono (by omega)) (AllS.mono (tgtC_inv o1 b1 hwf1) fun _ _ hh => ⟨hh.2.1, hh.2.2.1, hh.2.2.2.2⟩)
+  have hR2 : RestOK (o1 + P.sizes b1 + csz2 + 3 + P.sizes t + 3) (emit true (o1 + P.sizes b1 + csz2 + 3 + P.sizes t + 3) b2) := restOK_emit _ b2 hwf2
+  have hXinv : AllS (EmitInv (o1 + P.sizes b1 + csz2 + 3) (o1 + P.sizes b1 + csz2 + 3 + P.sizes t + 3)) (emit true (o1 + P.sizes b1 + csz2 + 3) t) := it.mono fun _ _ hh => hh.mono (by omega) (by omega)
+  have hL2 : [exitIf pj cond] ++ (tgtC o1 b1 ++ (jzStmt (o1 + P.sizes b1 + csz2) cond2 (o1 + P.sizes b1 + csz2 + 3 + P.sizes t + 3) :: (emit true (o1 + P.sizes b1 + csz2 + 3) t ++ jumpStmt (o1 + P.sizes b1 + csz2 + 3 + P.sizes t) X :: emit true (o1 + P.sizes b1 + csz2 + 3 + P.sizes t + 3) b2))) =
+      ([exitIf pj cond] ++ tgtC o1 b1) ++ Node.stmt (o1 + P.sizes b1 + csz2) (.jz (o1 + P.sizes b1 + csz2) cond2 (o1 + P.sizes b1 + csz2 + 3 + P.sizes t + 3)) :: ((emit true (o1 + P.sizes b1 + csz2 + 3) t ++ [jumpStmt (o1 + P.sizes b1 + csz2 + 3 + P.sizes t) X]) ++ emit true (o1 + P.sizes b1 + csz2 + 3 + P.sizes t + 3) b2) := by
+    simp [jzStmt]
+  rw [hL2]
+  have h1 := ifScan_split (.jz (o1 + P.sizes b1 + csz2) cond2 (o1 + P.sizes b1 + csz2 + 3 + P.sizes t + 3)) (.ifThen (o1 + P.sizes b1 + csz2) cond2 [] []) (o1 + P.sizes b1 + csz2) (o1 + P.sizes b1 + csz2 + 3 + P.sizes t + 3) ([exitIf pj cond] ++ tgtC o1 b1)
+    (emit true (o1 + P.sizes b1 + csz2 + 3) t ++ [jumpStmt (o1 + P.sizes b1 + csz2 + 3 + P.sizes t) X]) (emit true (o1 + P.sizes b1 + csz2 + 3 + P.sizes t + 3) b2) (o1 + P.sizes b1 + csz2) (.jz (o1 + P.sizes b1 + csz2) cond2 (o1 + P.sizes b1 + csz2 + 3 + P.sizes t + 3))
+    (AllS.mono hdone1 fun _ _ hh => ⟨pyEq_of_cls_ne (by simpa [Node.cls] using hh.2.1), by have := hh.1; omega, by have := hh.1; omega⟩)
+    (by rw [pyEq_jz]; simp)
+    (AllS.append (AllS.mono hXinv fun _ _ hh => ⟨pyEq_jz_false _ _ hh.2.2.2.1 (by have := hh.1; omega), by have := hh.1; omega,
+      by have := hh.2.1; omega⟩) (allS_jump (o1 + P.sizes b1 + csz2 + 3 + P.sizes t) X ⟨pyEq_of_cls_ne (by simp [Node.cls]), by omega, by omega⟩))
+    (hR2.ifHead _ _ _ _ (by omega) (by omega))
+  have h2 : pyRemoveAll (([exitIf pj cond] ++ tgtC o1 b1) ++ Node.stmt (o1 + P.sizes b1 + csz2) (.ifThen (o1 + P.sizes b1 + csz2) cond2 [] []) ::
+      ((emit true (o1 + P.sizes b1 + csz2 + 3) t ++ [jumpStmt (o1 + P.sizes b1 + csz2 + 3 + P.sizes t) X]) ++ emit true (o1 + P.sizes b1 + csz2 + 3 + P.sizes t + 3) b2)) (emit true (o1 + P.sizes b1 + csz2 + 3) t ++ [jumpStmt (o1 + P.sizes b1 + csz2 + 3 + P.sizes t) X]) =
+      .ok (([exitIf pj cond] ++ tgtC o1 b1) ++ Node.stmt (o1 + P.sizes b1 + csz2) (.ifThen (o1 + P.sizes b1 + csz2) cond2 [] []) :: emit true (o1 + P.sizes b1 + csz2 + 3 + P.sizes t + 3) b2) := by
+    have hXall : AllS (fun p _ => (o1 + P.sizes b1 + csz2) < p) (emit true (o1 + P.sizes b1 + csz2 + 3) t ++ [jumpStmt (o1 + P.sizes b1 + csz2 + 3 + P.sizes t) X]) :=
+      AllS.append (AllS.mono hXinv fun _ _ hh => by have := hh.1; omega) (allS_jump _ _ (by omega))
+    have := pyRemoveAll_block (([exitIf pj cond] ++ tgtC o1 b1) ++ [Node.stmt (o1 + P.sizes b1 + csz2) (.ifThen (o1 + P.sizes b1 + csz2) cond2 [] [])]) _ (emit true (o1 + P.sizes b1 + csz2 + 3 + P.sizes t + 3) b2)
+      (AllS.append (allS_true hdone1) (AllS.cons trivial AllS.nil)) (allS_true hXall)
+      (by
+        intro a ha x hx
+        obtain ⟨px, cx, rfl, hpx⟩ := hXall x hx
+        rcases List.mem_append.1 ha with h | h
+        · obtain ⟨pa, ca, rfl, hpa⟩ := hdone1 a h
+          have := hpa.1; simp [Node.pos]; omega
+        · simp only [List.mem_singleton] at h; subst h
+          simp [Node.pos]; omega)
+    simpa using this
+  have h3 : breakDetect (emit true (o1 + P.sizes b1 + csz2 + 3) t ++ [jumpStmt (o1 + P.sizes b1 + csz2 + 3 + P.sizes t) X]) (some idx) = .ok (emit true (o1 + P.sizes b1 + csz2 + 3) t ++ [jumpStmt (o1 + P.sizes b1 + csz2 + 3 + P.sizes t) X]) :=
+    breakDetect_snoc _ _ _ (allS_true hXinv) (fun e he p jp ja hm => by
+      cases he
+      have := (mem_stmt_of_allS hXinv hm).2.2.2.2 jp ja rfl
+      omega)
+  have h4 : (emit true (o1 + P.sizes b1 + csz2 + 3) t ++ [jumpStmt (o1 + P.sizes b1 + csz2 + 3 + P.sizes t) X]).length <
+      (Node.stmt pj (Node.jz pj cond a0) :: (emit true o1 b1 ++ jzStmt (o1 + P.sizes b1 + csz2) cond2 (o1 + P.sizes b1 + csz2 + 3 + P.sizes t + 3) :: (emit true (o1 + P.sizes b1 + csz2 + 3) t ++ jumpStmt (o1 + P.sizes b1 + csz2 + 3 + P.sizes t) X :: emit true (o1 + P.sizes b1 + csz2 + 3 + P.sizes t + 3) b2))).length := by
+    simp only [List.length_append, List.length_cons, List.length_nil]; omega
+  have h5 : condDetectD d' (emit true (o1 + P.sizes b1 + csz2 + 3) t ++ [jumpStmt (o1 + P.sizes b1 + csz2 + 3 + P.sizes t) X]) (some idx) = .ok (tgtC (o1 + P.sizes b1 + csz2 + 3) t ++ [jumpStmt (o1 + P.sizes b1 + csz2 + 3 + P.sizes t) X]) := by
+    have := IH t hwt true d' (o1 + P.sizes b1 + csz2 + 3) (some idx) [] [] [jumpStmt (o1 + P.sizes b1 + csz2 + 3 + P.sizes t) X] hwft hdt HdrOK.none (Or.inr ⟨_, _, rfl, by omega⟩)
+      (fun e he => by cases he; omega)
+    simpa using this
+  have hne : (tgtC (o1 + P.sizes b1 + csz2 + 3) t ++ [jumpStmt (o1 + P.sizes b1 + csz2 + 3 + P.sizes t) X]).isEmpty = false := by simp
+  have h6 : pyGet (tgtC (o1 + P.sizes b1 + csz2 + 3) t ++ [jumpStmt (o1 + P.sizes b1 + csz2 + 3 + P.sizes t) X]) (-1) = .ok (.stmt (o1 + P.sizes b1 + csz2 + 3 + P.sizes t) (.jump (o1 + P.sizes b1 + csz2 + 3 + P.sizes t) X)) := pyGet_last _ _
+  rw [condJzs_if_exit d' _ (o1 + P.sizes b1 + csz2) cond2 (o1 + P.sizes b1 + csz2 + 3 + P.sizes t + 3) idx [] _ _ _ _ _ (o1 + P.sizes b1 + csz2 + 3 + P.sizes t) (o1 + P.sizes b1 + csz2 + 3 + P.sizes t) X (by omega) h1 h2 h3 h4 h5 hne h6 hX, condJzs_nil,
+    finalizeIf_split _ _ _ _ _ _ (hdone1.noPh _ (by omega)) (hR2.noPh _), hb2eq]
+  simp
+
+mutual
+theorem mapRep1_emit (k : Nat) (IH : ∀ ps, P.weights ps < k → MainAt ps) (ld : Bool) (d : Nat) (r : Option Int) :
+    (x : P) → (o : Int) → x.weight ≤ k → x.wf = true → x.depth ≤ d → (emit1 ld o x).mapM (repStep d r) = .ok (emit1 true o x)
+  | .simple s, o, _, h, _ => by
+    obtain ⟨_, h2⟩ := wf_simple.1 h
+    rw [emit1_simple, emit1_simple]
+    exact mapM_cons_ok (repStep_other d r _ _ (simpleCode_spec h2).2.2.2.1 (simpleCode_spec h2).2.2.2.2) mapM_nil_ok
+  | .skip n, o, _, _, _ => by rw [emit1_skip, emit1_skip]; rfl
+  | .ifThen csz cond t e, o, hw, h, hd => by
+    obtain ⟨ht, he, _⟩ := wf_if.1 h
+    simp only [P.weight] at hw
+    simp only [P.depth] at hd
+    have h1 := mapReps_emit k IH ld d r t (o + csz + 3) (by omega) ht (by omega)
+    have h2 := mapReps_emit k IH ld d r e (o + csz + 3 + P.sizes t + 3) (by omega) he (by omega)
+    by_cases hemp : e = []
+    · subst hemp
+      rw [emit1_if_noelse, emit1_if_noelse]
+      exact mapM_cons_ok (repStep_jzStmt ..) h1
+    · rw [emit1_if_else _ _ _ _ _ _ hemp, emit1_if_else _ _ _ _ _ _ hemp]
+      exact mapM_cons_ok (repStep_jzStmt ..) (mapM_append_ok h1 (mapM_cons_ok (repStep_jumpStmt ..) h2))
+  | .loop csz cond body, o, hw, h, hd => by
+    simp only [P.weight] at hw
+    simp only [P.depth] at hd
+    obtain ⟨d', rfl⟩ : ∃ d', d = d' + 1 := ⟨d - 1, by omega⟩
+    have hb := wf_loop.1 h
+    cases ld with
+    | true =>
+      rw [emit1_loop_done]
+      refine mapM_cons_ok ?_ mapM_nil_ok
+      apply repStep_repeat
+      apply clean_id
+      exact CleanL.cons_plain (c := .ifThen (o + csz) (.unary (S "not") (o + csz) cond) [exitRepeatStmt (o + csz)] [])
+        (by simp [Node.cls]) (by simp [Node.cls]) (by simp [Node.cls]) (tgtC_clean _ body hb d' (by omega))
+    | false =>
+      rw [emit1_loop_raw, emit1_loop_done]
+      refine mapM_cons_ok ?_ mapM_nil_ok
+      apply repStep_repeat
+      have := IH body (by omega) false d' (o + csz + 3) (some (o + csz + 3 + P.sizes body))
+        [jzStmt (o + csz) cond (o + csz + 3 + P.sizes body + 2)] [exitIf (o + csz) cond] [] hb (by omega)
+        (HdrOK.hdr (o + csz) cond (o + csz + 3 + P.sizes body) _ rfl (by omega) (by omega)) (Or.inl rfl)
+        (fun e he => by cases he; omega)
+      simpa using this
+  | .loopX csz cond b1 csz2 cond2 t b2, o, hw, h, hd => by
+    simp only [P.weight] at hw
+    simp only [P.depth] at hd
+    obtain ⟨d', rfl⟩ : ∃ d', d = d' + 1 := ⟨d - 1, by omega⟩
+    obtain ⟨hb1, ht, hb2, hno⟩ := wf_loopX.1 h
+    cases ld with
+    | true =>
+      simp only [emit1, if_true]
+      refine mapM_cons_ok ?_ mapM_nil_ok
+      apply repStep_repeat
+      apply clean_id
+      refine CleanL.cons_plain (c := .ifThen (o + csz) (.unary (S "not") (o + csz) cond) [exitRepeatStmt (o + csz)] [])
+        (by simp [Node.cls]) (by simp [Node.cls]) (by simp [Node.cls]) ?_
+      exact CleanL.append (tgtC_clean _ b1 hb1 d' (by omega))
+        (CleanL.cons_plain (by simp [Node.cls]) (by simp [Node.cls]) (by simp [Node.cls]) (tgtC_clean _ b2 hb2 d' (by omega)))
+    | false =>
+      simp only [emit1, Bool.false_eq_true, if_false, if_true]
+      refine mapM_cons_ok ?_ mapM_nil_ok
+      apply repStep_repeat
+      exact bodyX k IH d' b1 t b2 csz2 cond cond2 (o + csz) (o + csz + 3) _ _ _ (by omega) (by omega) hb1 ht hb2 hno (by omega) (by omega)
+        (by omega) (by omega) (by omega) (by omega)
+        (mapReps_emit k IH false d' _ b1 _ (by omega) hb1 (by omega))
+        (mapReps_emit k IH false d' _ t _ (by omega) ht (by omega))
+        (mapReps_emit k IH false d' _ b2 _ (by omega) hb2 (by omega))
+theorem mapReps_emit (k : Nat) (IH : ∀ ps, P.weights ps < k → MainAt ps) (ld : Bool) (d : Nat) (r : Option Int) :
+    (ps : List P) → (o : Int) → P.weights ps ≤ k → P.wfs ps = true → P.depths ps ≤ d →
+      (emit ld o ps).mapM (repStep d r) = .ok (emit true o ps)
+  | [], o, _, _, _ => by rw [emit_nil, emit_nil]; rfl
+  | x :: ps, o, hw, h, hd => by
+    obtain ⟨hx, hps⟩ := wfs_cons.1 h
+    rw [weights_cons] at hw
+    rw [depths_cons] at hd
+    rw [emit_cons, emit_cons]
+    exact mapM_append_ok (mapRep1_emit k IH ld d r x o (by omega) hx (by omega))
+      (mapReps_emit k IH ld d r ps (o + x.size) (by omega) hps (by omega))
+end
+
 
 /-! ### the whole function on one list -/
 
